@@ -16,4 +16,5 @@ Extraction "model.ml"
   merge_scalar merge_repeated mod_value_okb
   msg_decode msg_merge msg_decode_length_delimited enc_msg len_msg default_msg wt_msg schema_ok
   module_of_decl scalar_module
+  wrapper_decode wrapper_merge wrapper_decode_length_delimited wrapper_enc wrapper_len
   err site.
